@@ -215,6 +215,10 @@ def run(ctx, chk, tier):
     c12.from_labels_rule(ctx, chk)
     c12.getitem_rule(ctx, chk)
     c12.group_cm_rule(ctx, chk)
+    # the default bootstrap configuration of showbias is sampling_method="dynamic" on a GroupScores object: its resolution must not pick
+    # single-pass sampling for a class that is small or absent (p = 1 / nb_hard of an empty class divides by zero)
+    from . import c11
+    c11.dynamic_method(ctx, chk, rule="R18.7", classes=(c11.GROUP,))
     chk.floor("R18.2", 12, "12 configuration combinations")
     chk.floor("R18.3", 6, "6 bootstrap combinations")
 
